@@ -18,6 +18,59 @@ IMPORTS = 'Base.Bytes Model.Tag Model.Container'
 FINDINGS = ('F18a', 'F18d', 'F18h', 'F18i')
 
 
+# repaired defects (fixes/F18b,c,e,f,g.diff): minimal histories that must now satisfy the property
+REGRESSIONS = [
+    ('F18b', 'SequenceOf(Integer)', [('SExtend', [('PInt', 1), ('PInt', 2), ('PInt', 3)]), ('SReverse',), ('SIndex', 1)]),
+    ('F18b', 'SequenceOf()', [('SAppend', ('PAsn', 1)), ('SAppend', ('PAsn', 2)), ('SReverse',)]),
+    ('F18c', 'Choice3', [('RIter',)]),
+    ('F18e', 'Choice3', [('RSetItem', ('KName', 1), ('PInt', 5)), ('RReset',), ('RLen',), ('RIsValue',)]),
+    ('F18f', 'SequenceOf(Integer)', [('SClone', True)]),
+    ('F18f', 'SetOf(Integer)', [('SClear',), ('SClone', True), ('SIsValue',)]),
+    ('F18g', 'Choice3', [('RSetItem', ('KName', 1), ('PInt', 5)), ('RSetItem', ('KPos', -2), ('PInt', 6)), ('RGetName0',)]),
+    ('F18g', 'Choice3', [('RSetItem', ('KPos', -1), ('PInt', 6)), ('RGetName0',), ('REncode',)]),
+]
+
+
+def detuple(x):
+    """JSON lists back to the operation tuples of containers.py"""
+    if isinstance(x, list) and x and isinstance(x[0], str) and (x[0][:1] in 'SRPK' or x[0] == 'CVal'):
+        return tuple(detuple(y) for y in x)
+    if isinstance(x, list):
+        return [detuple(y) for y in x]
+    return x
+
+
+def fixed_cases(ctx, kinds):
+    """witnesses of the listed findings (must still be classified as such) and of the repaired defects (must pass)"""
+    exprs, meta = [], []
+    for fid, f in sorted(core.open_findings('C19').items()):
+        w = f.get('witness') or {}
+        if 'history' not in w or w.get('kind') not in kinds:
+            continue
+        kind, ops = kinds[w['kind']], [detuple(o) for o in w['history']]
+        trace, failures, upto = C.run_history(kind, ops)
+        ctx.case(('witness', fid), True)
+        ctx.stats['finding witnesses replayed'] += 1
+        hit = [x for x in failures if x.finding == fid]
+        for x in failures:
+            ctx.prop_fail('%s: %s' % (kind.name, x.what), {'kind': kind.name, 'history': [op_json(o) for o in ops],
+                                                         'detail': op_json(x.detail), 'witness_of': fid}, finding=x.finding)
+        if not hit:
+            ctx.notes.append('witness of %s no longer fails' % fid)
+        exprs.append(kind.coq_check(ops[:upto], trace[:upto])); meta.append((kind, ops[:upto], trace[:upto]))
+    for fid, kname, ops in REGRESSIONS:
+        kind = kinds[kname]
+        trace, failures, upto = C.run_history(kind, ops)
+        ctx.case(('regression', fid, kname, repr(ops)), True)
+        ctx.stats['repaired-defect histories replayed'] += 1
+        for x in failures:
+            ctx.prop_fail('%s: %s (history of repaired defect %s)' % (kind.name, x.what, fid),
+                          {'kind': kind.name, 'history': [op_json(o) for o in ops], 'detail': op_json(x.detail),
+                           'outcomes': [op_json(t[0]) for t in trace]}, finding=x.finding)
+        exprs.append(kind.coq_check(ops[:upto], trace[:upto])); meta.append((kind, ops[:upto], trace[:upto]))
+    return exprs, meta
+
+
 def gen_history(kind, rng, length, wild):
     P = kind.proto_init()
     ops = []
@@ -107,7 +160,7 @@ def run(ctx):
                 'and Set (Req/Opt/Default, distinct tags) and a 3-alternative Choice; after every step: outcome and concrete state '
                 'vs the Coq model, outcome/content/len/isValue vs a plain list/dict/option prototype; non-trivial = history with '
                 '>= 3 successful mutators' % maxlen)
-    exprs, meta = [], []
+    exprs, meta = fixed_cases(ctx, {k.name: k for k in kinds})
     reported = set()
     for kind in kinds:
         for h in range(per_kind):
@@ -159,12 +212,6 @@ def replay(data):
         return 0
     kind = kinds[case['kind']]
 
-    def detuple(x):
-        if isinstance(x, list) and x and isinstance(x[0], str) and (x[0][:1] in 'SRPK' or x[0] in ('CVal',)):
-            return tuple(detuple(y) for y in x)
-        if isinstance(x, list):
-            return [detuple(y) for y in x]
-        return x
     ops = [detuple(o) for o in case['history']]
     trace, failures, upto = C.run_history(kind, ops)
     print('kind', kind.name)
